@@ -676,3 +676,169 @@ func accumulatedAndReported(f *ssa.Function, errVal ssa.Value) bool {
 	}
 	return any
 }
+
+// isErrCollector: fn(base []error, more ...error) []error appends every non-nil element of
+// its variadic parameter to what it returns (goaterr.AppendError; computed, not listed): the
+// only way round the append inside the loop is the edge on which the element is nil.
+var collMemo = map[*ssa.Function]int{}
+
+func isErrCollector(fn *ssa.Function) bool {
+	if fn == nil || fn.Blocks == nil || !fn.Signature.Variadic() || fn.Signature.Results().Len() != 1 {
+		return false
+	}
+	if r, ok := collMemo[fn]; ok {
+		return r == 1
+	}
+	collMemo[fn] = 2
+	vp := fn.Params[len(fn.Params)-1]
+	sl, ok := vp.Type().Underlying().(*types.Slice)
+	if !ok || !isErrorType(sl.Elem()) {
+		return false
+	}
+	if rs, ok := fn.Signature.Results().At(0).Type().Underlying().(*types.Slice); !ok || !isErrorType(rs.Elem()) {
+		return false
+	}
+	facts := factsFor(fn)
+	// the append of an element of vp
+	var app *ssa.Call
+	var elem ssa.Value
+	eachInstr(fn, func(_ *ssa.BasicBlock, _ int, in ssa.Instruction) {
+		c, ok := in.(*ssa.Call)
+		if !ok {
+			return
+		}
+		if b, ok := c.Call.Value.(*ssa.Builtin); !ok || b.Name() != "append" || len(c.Call.Args) != 2 {
+			return
+		}
+		for _, el := range appendedElemsOfCall(c) {
+			if ia := elementSource(el); ia != nil && ia.X == ssa.Value(vp) && ascendingIndex(ia.Index) {
+				app, elem = c, resolve(el)
+			}
+		}
+	})
+	if app == nil {
+		return false
+	}
+	ia := elementSource(elem)
+	body := ia.Block()
+	// every way from the element's load round the loop without the append knows the element nil
+	seen := map[*ssa.BasicBlock]bool{}
+	okAll := true
+	var walk func(b *ssa.BasicBlock)
+	walk = func(b *ssa.BasicBlock) {
+		if seen[b] || b == app.Block() {
+			return
+		}
+		seen[b] = true
+		if len(b.Succs) == 0 {
+			if !facts.KnownNil(b, elem, true) {
+				okAll = false
+			}
+			return
+		}
+		for _, sc := range b.Succs {
+			if sc.Dominates(body) && sc != body || sc == body {
+				// back to the loop header (or the body again): the iteration ends here
+				if !knownNilIn(factsOnEdge(facts, b, sc), elem, true) {
+					okAll = false
+				}
+				continue
+			}
+			walk(sc)
+		}
+	}
+	walk(body)
+	// the result is the collected list
+	for _, r := range returnsOf(fn) {
+		found := false
+		seenV := map[ssa.Value]bool{}
+		var rec func(v ssa.Value, d int)
+		rec = func(v ssa.Value, d int) {
+			if v == nil || seenV[v] || d > 8 {
+				return
+			}
+			seenV[v] = true
+			if v == ssa.Value(app) {
+				found = true
+			}
+			if p, ok := v.(*ssa.Phi); ok {
+				for _, e := range p.Edges {
+					rec(e, d+1)
+				}
+			}
+		}
+		rec(resolve(r.Results[0]), 0)
+		if !found {
+			okAll = false
+		}
+	}
+	if okAll {
+		collMemo[fn] = 1
+	}
+	return okAll
+}
+
+// nilImpliedByAggregate: the facts contain agg(coll(base, x1..xn)) == nil for an aggregate/collector
+// pair, and target is one of the xi, or xi is target wrapped on its non-nil edge (phi of target and an
+// error built where target is non-nil): then target is nil.
+func nilImpliedByAggregate(fs factSet, target ssa.Value) bool {
+	for k := range fs {
+		bo, ok := k.v.(*ssa.BinOp)
+		if !ok || (bo.Op != token.EQL && bo.Op != token.NEQ) || !isNilConst(bo.Y) {
+			continue
+		}
+		if (bo.Op == token.EQL) != k.pol {
+			continue // says non-nil
+		}
+		agg, ok := resolve(bo.X).(*ssa.Call)
+		if !ok || !isErrAggregator(agg.Call.StaticCallee()) {
+			continue
+		}
+		coll, ok := resolve(agg.Call.Args[0]).(*ssa.Call)
+		if !ok || !isErrCollector(coll.Call.StaticCallee()) {
+			continue
+		}
+		last := coll.Call.Args[len(coll.Call.Args)-1]
+		sl, ok := last.(*ssa.Slice)
+		if !ok {
+			continue
+		}
+		arr, ok := sl.X.(*ssa.Alloc)
+		if !ok {
+			continue
+		}
+		for _, r := range *arr.Referrers() {
+			ea, isIA := r.(*ssa.IndexAddr)
+			if !isIA {
+				continue
+			}
+			for _, r2 := range *ea.Referrers() {
+				st, isSt := r2.(*ssa.Store)
+				if !isSt || st.Addr != ssa.Value(ea) {
+					continue
+				}
+				x := resolve(st.Val)
+				if x == target || sameValue(x, target) {
+					return true
+				}
+				if p, isPhi := x.(*ssa.Phi); isPhi {
+					okPhi, has := true, false
+					for _, e := range p.Edges {
+						re := resolve(e)
+						switch {
+						case re == target || sameValue(re, target):
+							has = true
+						case isNonNilErrValue(re, 0):
+						default:
+							okPhi = false
+						}
+					}
+					if okPhi && has {
+						return true
+					}
+				}
+			}
+		}
+	}
+	return false
+}
